@@ -127,11 +127,23 @@ func RecvOn(stack porttypes.IBCModule, ctx sdk.Context, p Pkt) (res RecvResult) 
 			if r := recover(); r != nil {
 				st := strings.Split(string(debug.Stack()), "\n")
 				keep := []string{}
+				after := false
 				for _, l := range st {
-					if strings.Contains(l, "orbiter") || strings.Contains(l, "panic") {
-						keep = append(keep, strings.TrimSpace(l))
+					if strings.HasPrefix(l, "panic(") {
+						after = true
+						continue
 					}
-					if len(keep) > 12 {
+					if !after || strings.HasPrefix(l, "\t") || strings.HasPrefix(l, "runtime.") {
+						continue
+					}
+					if i := strings.LastIndex(l, "("); i > 0 {
+						l = l[:i]
+					}
+					if i := strings.LastIndex(l, "/"); i > 0 {
+						l = l[i+1:]
+					}
+					keep = append(keep, l)
+					if len(keep) >= 8 {
 						break
 					}
 				}
